@@ -214,7 +214,8 @@ PROPS = {
         lemmas=["RangeList"],
         explanation="Engine P proves the visitor methods (Or/And/Negation/Paren/Var incl. Top/Bottom) against the documented meaning, "
         "visitCondition (a condition list denotes its conditionals in the order written, consequent before and antecedent after the bar), "
-        "visitConditionals (the parsed base's conditionals are keyed 1..n in that order), and the rejection wiring of the wrappers: "
+        "visitConditionals (the parsed base's conditionals are keyed 1..n in that order), visitMyid / visitSignature (the signature is the "
+        "identifier list as written, refused exactly for a duplicate or the reserved names Top / Bottom), and the rejection wiring of the wrappers: "
         "_require_end_of_input returns normally iff the rest of the token stream is NEWLINE* EOF, the error listener never returns "
         "normally, and _getParseTree / parse_formula return only for a text that both recognisers processed without a reported error "
         "(each has the raising listener installed) and that is followed by newlines only -- relative to a model of the ANTLR runtime's "
